@@ -366,6 +366,11 @@ func c18(c *Ctx) {
 	seenPush := map[*ssa.Function]bool{}
 	for _, w := range m.repl {
 		if _, isCall := boundedPush(w.Val); !isCall {
+			if ip := inPlacePush(w, "bucket", "replacements"); ip != nil && !seenPush[w.Fn] {
+				seenPush[w.Fn] = true
+				r.Pass("R5.push-front", core.FuncName(w.Fn), p.Pos(w.Store.Pos()), "the new replacement is stored at index 0 after the shift (most recent first)")
+				continue
+			}
 			if ip := inlinePush(w.Val); ip != nil && !seenPush[w.Fn] {
 				seenPush[w.Fn] = true
 				// inlinePush only matches when the newcomer is stored at index 0 after the shift
